@@ -25,6 +25,9 @@ CHECKS = {
  "C07": ("E3-sched(+E5 race)", "stateless model checking of the real code: controlled cooperative scheduler owning every sync/atomic operation, depth-first enumeration of interleavings with iterative preemption bounding, sequential-specification oracle",
    "85 scenarios of 2-3 real goroutines (concurrent first use of recursive, mutually recursive, pointer-/map-recursive and nested types; shared intern tables; pooled map-key scratch with the pool's reuse-vs-fresh answer as an explored environment choice; failing builds) run on a fresh Plenc per execution. Every schedule within the completed deviation bound is executed (small scenarios: all interleavings; others: every schedule with <=3 preemptions, 3 threads <=2 quick / 3 thorough) and each operation's result is compared with the same operation alone on a fresh instance, plus a post-quiescence probe of the instance. Failing schedules are replayed twice and must reproduce identically.",
    "Trusted: the scheduler (sequentially consistent, switches only at sync / sync/atomic operations, instrumented via a generated import overlay of the current sources); unsynchronised accesses are looked for by the separate free-running -race pass, which is complementary and not exhaustive. Registration concurrent with use is not claimed.", "§7 C07"),
+ "C10": ("E2-bfs(+E3 env)", "explicit-state exploration of call histories on one real instance and one target variable, with sync.Pool's answer enumerated as an environment choice by the scheduler shim; reference merge model as oracle",
+   "For 28 re-use-sensitive types (x2 configurations): every history (prior target value p0; 2 or 3 Marshal+Unmarshal-into-the-same-target calls, each followed by an Unmarshal into a fresh variable) over the boundary values, priors also with aliased pointers, every sync.Pool reuse|fresh answer sequence. After every call the target must be one of ref.Merge(prior, v) and the fresh decode must equal a virgin instance's decode (differential), and Marshal inside the history must still produce the reference bytes.",
+   "Trusted: ref.Merge (weakest reading where the statement is silent), the Pool shim (LIFO reuse or New). Depth 3 in the quick tier uses the reduced value set.", "§7 C10"),
 }
 NOT_YET = "check not built yet (in progress); see DESIGN.md §7 for the planned model-checking design"
 
